@@ -49,7 +49,7 @@ Definition holds5 (c : c05_case) : bool :=
            (appeared_files (k_sched b))
            (new_content (k_body b))
            (is_raise (r_outcome r)) (assoc (c_dest g) (r_files r)) (assoc (c_part g) (r_files r))
-           (unlink_failed (c_part g) (r_trace r)) (others_same b (r_files r))
+           (unlink_failed (c_part g) (r_trace r)) (others_same b (r_files r)) (r_intruded r)
            (match k5_retry c with
             | None => None
             | Some (_, r2) => Some (is_raise (r_outcome r2), assoc (c_dest g) (r_files r2),
